@@ -123,6 +123,6 @@ Proof. vm_compute. reflexivity. Qed.
 (* C13_free_once on this history: something is live before, nothing after destroying every object *)
 Example ex_released :
   let st' := run (init_state 3) ((ex_hist ++ [OCopy 1 0; OCopy 2 1]) ++ destroy_all 3) in
-  bad (hp st') = false /\ next (hp st') = 25 /\
-  filter (fun x => match cells (hp st') x with Some _ => true | None => false end) (seq 0 25) = [].
+  bad (hp st') = false /\ next (hp st') = 23 /\
+  filter (fun x => match cells (hp st') x with Some _ => true | None => false end) (seq 0 23) = [].
 Proof. vm_compute. auto. Qed.
